@@ -410,6 +410,10 @@ macro_rules! by_tag {
 }
 
 pub fn checksum_of(b: u8) -> Checksum {
+    // boundary value: the all-zero digest is a checksum like any other
+    if b == 2 {
+        return Checksum::from([0u8; 32]);
+    }
     Checksum::generate(&[b, b, b])
 }
 
